@@ -42,8 +42,16 @@ ASSUMPTIONS = ['C implementation only; only allocations the extension makes itse
 def shards(tier, seed):
     n = {'quick': 12, 'thorough': 400}[tier]
     nf = 4 if tier == 'quick' else 22
-    return [{'n': n, 'impl': 'c', 'variant': 'san', 'fams': F.rotate(F.FAMILIES, seed * 7 + i * 4, nf)}
-            for i in range(16)]
+    out = [{'n': n, 'impl': 'c', 'variant': 'san', 'fams': F.rotate(F.FAMILIES, seed * 7 + i * 4, nf)}
+           for i in range(16)]
+    # bounded-exhaustive conflict merges: every triple of subsets of a 3-key universe (thorough: 4 keys) for one
+    # (family, kind) slice per shard, every allocation of every merge failed in turn
+    kinds = ['Bucket', 'Set', 'BTree', 'TreeSet']
+    for i, sh in enumerate(out):
+        fam = F.FAMILIES[(seed * 3 + i * 7) % len(F.FAMILIES)]
+        sh['enum_merge'] = {'cfg': {'fam': fam, 'kind': kinds[i % 4], 'impl': 'c', 'sizes': None},
+                            'universe': 3 if tier == 'quick' else 4}
+    return out
 
 
 def _cases(shard):
@@ -124,7 +132,16 @@ def run_case(case, ctx):
 
 
 def run_shard(shard, ctx):
-    ctx.hyp(_cases(shard), run_case, shard['n'], 'oom')
+    if not ctx.hyp(_cases(shard), run_case, shard['n'], 'oom'):
+        return
+    em = shard.get('enum_merge')
+    if em:
+        n = 0
+        for case in faults.merge_enum_cases(em['cfg'], em['universe']):
+            n += len(case['probes'])
+            if not ctx.run_case(case, run_case):
+                return
+        ctx.count('enumerated_merge_triples', n)
 
 
 def replay(case, ctx):
